@@ -94,7 +94,7 @@ def main(argv):
         for sid, res in ex.map(run_seed, seeds):     # recorded as they finish (in seed order)
             mp = '/verif/seeded/%s/meta.json' % sid
             m = json.load(open(mp))
-            m['detected_by'] = {'repo_head': head, 'how': 'tools/run_seeded.py: patch applied to a scratch copy of /repo, '
+            m[os.environ.get('CGV_META_FIELD', 'detected_by')] = {'repo_head': head, 'verif_seed': os.environ.get('VERIF_SEED', '0'), 'how': 'tools/run_seeded.py: patch applied to a scratch copy of /repo, '
                                 './check <property> --tier quick from a scratch copy of /verif (CGV_REPO)', 'checks': res}
             json.dump(m, open(mp, 'w'), indent=1)
             print(sid, {p: ('input' if r.get('violation') and not r.get('no_failing_input_found') else
